@@ -225,7 +225,7 @@ def dynamic_oracles(ck, nodes, rep, req, insp, rng, counters):
                     ck.fail_input("C02:reported-origin-differs-from-run:%s" % why,
                                   "node %d parameter %s: inspection says %s, the value actually comes from %s" % (i + 1, name, reported, actual), replay3)
             for k in after:
-                if k not in before or before[k] is not after[k] and before[k] != after[k]:
+                if k not in before or (before[k] is not after[k] and _differs(before[k], after[k])):
                     writer[k] = i + 1
                 elif k in d["created"]:
                     writer[k] = i + 1
@@ -233,6 +233,14 @@ def dynamic_oracles(ck, nodes, rep, req, insp, rng, counters):
                 if k not in after:
                     del writer[k]
         counters["exactness_runs"] += 1
+
+
+def _differs(a, b):
+    """value inequality that tolerates numpy arrays and other objects with non-boolean `!=`"""
+    try:
+        return bool(a != b)
+    except Exception:  # noqa
+        return repr(a) != repr(b)
 
 
 def pg_params(n):
